@@ -162,6 +162,10 @@ func (g *genState) annotation() string {
 	for i := 0; i < n; i++ {
 		p = append(p, g.word())
 	}
+	if g.r.Chance(1, 6) {
+		// blanks that are content, not separators: no-break space, ideographic space, narrow no-break space
+		return strings.Join(p, []string{"\u00a0", "\u3000", "\u202f", " \u00a0 ", "\u2003"}[g.r.Intn(5)])
+	}
 	return strings.Join(p, " ")
 }
 
@@ -305,7 +309,7 @@ func (g *genState) decorate(n *SNode) {
 		}
 	}
 	if g.r.Chance(1, 4) {
-		n.Note = g.word() + " note"
+		n.Note = g.word() + []string{" ", " ", " ", "\u00a0"}[g.r.Intn(4)] + "note"
 	}
 }
 
